@@ -305,6 +305,7 @@ func genFrames(r *rand.Rand, ctr, n int, sorted bool, tieHeavy bool) []Frame {
 			ns = []int{10000000, 20000000, 17000000, 70000000, 1000, 7, 1234567}[r.Intn(7)]
 		}
 		fs = append(fs, Frame{Typ: 1 + r.Intn(2), TS: []int{sec, ns}, Msg: B(fmt.Sprintf("c%d-%d", ctr, j+1))})
+
 	}
 	if sorted {
 		sort.SliceStable(fs, func(a, b int) bool {
@@ -315,6 +316,14 @@ func genFrames(r *rand.Rand, ctr, n int, sorted bool, tieHeavy bool) []Frame {
 		})
 		for j := range fs {
 			fs[j].Msg = B(fmt.Sprintf("c%d-%d", ctr, j+1))
+		}
+	}
+	if tieHeavy {
+		// the same text at the same instant may well come from two containers (or twice from one): both are records
+		for j := range fs {
+			if r.Intn(3) == 0 {
+				fs[j].Msg = B("same")
+			}
 		}
 	}
 	return fs
@@ -350,8 +359,8 @@ func genMerge(r *rand.Rand) dockerIn {
 
 
 var selNames = []string{"a", "ab", "b", "web", "db-1", "x.y", ""}
-var selKeys = []string{"app", "com.docker.compose.service", "k-1", "1st", "\xc3\xa9t\xc3\xa9", "a/b", "x y", "tier", "ZONE"}
-var selKeysSan = []string{"app", "com_docker_compose_service", "k_1", "_1st", "_t_", "a_b", "x_y", "tier", "ZONE"}
+var selKeys = []string{"app", "com.docker.compose.service", "k-1", "1st", "\xc3\xa9t\xc3\xa9", "a/b", "x y", "tier", "ZONE", "msg", "level"}
+var selKeysSan = []string{"app", "com_docker_compose_service", "k_1", "_1st", "_t_", "a_b", "x_y", "tier", "ZONE", "msg", "level"}
 var selVals = []string{"", "a", "ab", "b", "web", "x y", "a.b", "A", "\xff", "a\nb"}
 var selBuiltins = []string{"container", "container_name", "container_id", "container_image", "container_state", "container_created", "container_command", "container_status", "container_image_id"}
 
